@@ -354,6 +354,13 @@ fn features(trace: &[Act]) -> String {
     format!("symbols={}/case-differs={}", kinds.into_iter().collect::<Vec<_>>().join("+"), if case_differs { "yes" } else { "no" })
 }
 
+/// a deterministic selection of traces (state-cover access traces) for other checks' corpora
+pub fn sample_traces() -> Vec<Vec<Act>> {
+    let m = SymModel;
+    let ex = mc::explore(&m, 3);
+    ex.cover.into_iter().map(|(t, _)| t).filter(|t| t.len() == 3).step_by(5).collect()
+}
+
 pub fn run(tier: Tier) -> i32 {
     let rep = Report::new("C10", tier, "model_checking");
     let (n1, k) = if tier.thorough() { (5usize, 2usize) } else { (4usize, 2usize) };
